@@ -359,22 +359,255 @@ Definition solve_T_at_HP (aitken : Q -> res (Q * cn_cache)) (secant : Q -> Q -> 
   let T := fst b in
   if qltb tol (Qabs (T - Tg)) then secant Tg T else Ok T.
 
+(* the same wrapper for entropy (solve_T_at_SP / xsolve_T_at_SP) *)
+Definition solve_T_at_SP (expf : Q -> Q) (aitken : Q -> res (Q * cn_cache)) (secant : Q -> Q -> res Q) (tol : Q)
+           (S Tguess : Q) (Sm Cnm : Q -> Q) : res Q :=
+  do a <- aitken Tguess;
+  let '(Tg, c) := a in
+  do b <- iter_T_at_SP expf Tg S Sm Cnm c;
+  let T := fst b in
+  if qltb tol (Qabs (T - Tg)) then secant Tg T else Ok T.
+
+(* The mixture's work-space (_free_energy_args, a dict keyed by phase): _load_(x)free_energy_args fills it before the
+   solve, and the four wrappers are  `try: <solve> finally: self._free_energy_args.clear()`.  What a wrapper leaves
+   behind is part of its result: the entries present when it returns OR raises. *)
+Definition workspace := list phase.
+Definition with_workspace {A} (loaded : workspace) (body : workspace -> res A) : res A * workspace :=
+  let r := body loaded in (r, []).                       (* finally: clear() *)
+Definition solve_T_at_HP_ws (loaded : workspace) aitken secant tol H Tguess Hm Cnm : res Q * workspace :=
+  with_workspace loaded (fun _ => solve_T_at_HP aitken secant tol H Tguess Hm Cnm).
+Definition solve_T_at_SP_ws (loaded : workspace) expf aitken secant tol S Tguess Sm Cnm : res Q * workspace :=
+  with_workspace loaded (fun _ => solve_T_at_SP expf aitken secant tol S Tguess Sm Cnm).
+
+(* ------------------------------------------------------------------ the per-stream property memo and handles *)
+(* _property_cache (dict name -> value per unit flow) and _property_cache_key (mutable 2-list [literal, composition])
+   belong to the stream's data: Stream.proxy() hands BOTH objects to the proxy, together with the flows and the
+   thermal condition.  A cell is one such bundle; a handle (the original or any of its proxies) is an index of a cell.
+   Keys are compared as Python compares them: exact equality of phase(s), T, P and of the composition entries. *)
+Definition leib_q (a b : Q) : bool := Z.eqb (Qnum a) (Qnum b) && Pos.eqb (Qden a) (Qden b).
+Definition leib_pv (a b : phase * vec) : bool := (fst a =? fst b)%nat && list_eqb leib_q (snd a) (snd b).
+Record pkey := mkK { kcomp : pmol; kT : Q; kP : Q }.
+Definition pkey_eqb (a b : pkey) : bool :=
+  list_eqb leib_pv (kcomp a) (kcomp b) && leib_q (kT a) (kT b) && leib_q (kP a) (kP b).
+Definition memo := option (pkey * list (nat * Q)).            (* None = [None, None] / {} *)
+Record cell := mkCell { cs : stream; cm : memo }.
+Definition key_of (s : stream) : pkey := mkK (pm_div (pm s) (total s)) (sT s) (sP s).
+(* property names: 0 = 'H', anything else = 'S' *)
+Definition pname (O : oracles) (name : nat) : phase -> vec -> Q -> Q -> Q :=
+  match name with 0%nat => Hmix O | _ => Smix O end.
+Definition calc (O : oracles) (name : nat) (k : pkey) : Q := xsum (pname O name) (kcomp k) (kT k) (kP k).
+Fixpoint lookup (name : nat) (vals : list (nat * Q)) : option Q :=
+  match vals with
+  | [] => None
+  | nv :: t => if (fst nv =? name)%nat then Some (snd nv) else lookup name t
+  end.
+Definition out_val (flow : bool) (v tot : Q) : option Q := Some (if flow then v * tot else v).
+
+(* Stream._get_property / MultiStream._get_property, nophase=False *)
+Definition get_prop (O : oracles) (name : nat) (flow : bool) (c : cell) : option Q * cell :=
+  let s := cs c in
+  let tot := total s in
+  if qzerob tot then ((if flow then Some 0 else None), c) else
+  let k := key_of s in
+  let fresh := calc O name k in
+  match cm c with
+  | Some (k0, vals) =>
+      if pkey_eqb k k0 then
+        match lookup name vals with
+        | Some v => (out_val flow v tot, c)                                     (* name in property_cache *)
+        | None => (out_val flow fresh tot, mkCell s (Some (k, (name, fresh) :: vals)))
+        end
+      else (out_val flow fresh tot, mkCell s (Some (k, [(name, fresh)])))      (* property_cache.clear() *)
+  | None => (out_val flow fresh tot, mkCell s (Some (k, [(name, fresh)])))
+  end.
+(* the getter without a memo *)
+Definition get_plain (O : oracles) (name : nat) (flow : bool) (c : cell) : option Q * cell :=
+  ((if flow then Some (prop_flow (pname O name) (cs c)) else prop_spec (pname O name) (cs c)), c).
+
+Definition reader := nat -> bool -> cell -> option Q * cell.
+
+(* ------------------------------------------------------------------ histories over handles *)
+Inductive hop :=
+| HProxy (h : nat)                                  (* p = s.proxy() : a new handle of the same cell *)
+| HRead (h : nat) (name : nat) (flow : bool)        (* s.H, s.S (flow) / s.h (not flow) *)
+| HSetT (h : nat) (T : Q)
+| HSetP (h : nat) (P : Q)
+| HPhase (h : nat) (p : phase)                      (* s.phase = p  (single-phase streams) *)
+| HSet (h : nat) (which : nat) (x : Q)              (* 0: s.H = x, 1: s.S = x, 2: s.h = x, 3: s.Hnet = x *)
+| HSetCur (h : nat) (which : nat)                   (* s.H = s.H, ... : the value comes from the getter *)
+| HMix (h : nat) (others : list inlet) (Q0 : Q)     (* handles inside [others] *)
+| HSep (h o : nat).
+Inductive obs := ONone | OVal (v : option Q) | OErr (e : option err) | OStop (e : err).
+Definition hstate := (list cell * list nat)%type.
+
+Definition with_s (c : cell) (s : stream) : cell := mkCell s (cm c).
+Definition idx_of (hs : list nat) (h : nat) : option nat := nth_error hs h.
+Definition tr_inlets (hs : list nat) (others : list inlet) : list inlet :=
+  map (fun o => match o with
+                | IStream h => match nth_error hs h with Some i => IStream i | None => INone end
+                | x => x
+                end) others.
+Definition apply_set (O : oracles) (which : nat) (s : stream) (x : Q) : sres :=
+  match which with
+  | 0%nat => setH O s x
+  | 1%nat => setS O s x
+  | 2%nat => seth O s x
+  | _ => setHnet O s x
+  end.
+Definition opt0 (v : option Q) : Q := match v with Some x => x | None => 0 end.
+(* what the right-hand side of `s.X = s.X` evaluates to *)
+Definition cur_value (O : oracles) (rd : reader) (which : nat) (c : cell) : Q * cell :=
+  match which with
+  | 0%nat => let r := rd 0%nat true c in (opt0 (fst r), snd r)
+  | 1%nat => let r := rd 1%nat true c in (opt0 (fst r), snd r)
+  | 2%nat => let r := rd 0%nat false c in (opt0 (fst r), snd r)
+  | _ => let r := rd 0%nat true c in (opt0 (fst r) + getHf O (cs c), snd r)      (* Hnet = H + Hf *)
+  end.
+Definition read_at (rd : reader) (cells : list cell) (i : nat) : list cell :=
+  match nth_error cells i with Some c => upd cells i (snd (rd 0%nat true c)) | None => cells end.
+(* the enthalpy reads mix_from makes: i.H of every non-empty inlet (before anything is changed), or self.H after
+   copy_like when there is one non-empty inlet and heat to add *)
+Definition mix_reads (O : oracles) (rd : reader) (cells : list cell) (r : nat) (others : list inlet) (Q0 : Q) : list cell :=
+  let st := map cs cells in
+  match streams_of st others with
+  | [] => cells
+  | [i] =>
+      if qzerob (heat_of others Q0) then cells else
+      match nth_error cells r, nth_error st i with
+      | Some cr, Some o =>
+          match copy_like (cs cr) o (r =? i)%nat with
+          | Ok s1 => upd cells r (snd (rd 0%nat true (mkCell s1 (cm cr))))
+          | Err _ => cells
+          end
+      | _, _ => cells
+      end
+  | l => fold_left (read_at rd) l cells
+  end.
+Definition set_streams (cells : list cell) (st : store) : list cell := map2 with_s cells st.
+
+Definition hstep (O : oracles) (rd : reader) (stt : hstate) (op : hop) : obs * hstate :=
+  let '(cells, hs) := stt in
+  let at_h (h : nat) (k : nat -> cell -> obs * hstate) : obs * hstate :=
+    match idx_of hs h with
+    | Some i => match nth_error cells i with Some c => k i c | None => (ONone, stt) end
+    | None => (ONone, stt)
+    end in
+  match op with
+  | HProxy h => at_h h (fun i _ => (ONone, (cells, hs ++ [i])))
+  | HRead h name flow => at_h h (fun i c => let r := rd name flow c in (OVal (fst r), (upd cells i (snd r), hs)))
+  | HSetT h T => at_h h (fun i c => (ONone, (upd cells i (with_s c (set_T (cs c) T)), hs)))
+  | HSetP h P => at_h h (fun i c => (ONone, (upd cells i (with_s c (set_P (cs c) P)), hs)))
+  | HPhase h p => at_h h (fun i c => (ONone, (upd cells i (with_s c (set_phase1 (cs c) p)), hs)))
+  | HSet h which x => at_h h (fun i c => let r := apply_set O which (cs c) x in
+                                         (OErr (snd r), (upd cells i (with_s c (fst r)), hs)))
+  | HSetCur h which => at_h h (fun i c => let v := cur_value O rd which c in
+                                          let c1 := snd v in
+                                          let r := apply_set O which (cs c1) (fst v) in
+                                          (OErr (snd r), (upd cells i (with_s c1 (fst r)), hs)))
+  | HMix h others Q0 =>
+      at_h h (fun i _ =>
+        let ot := tr_inlets hs others in
+        match mix_from O (map cs cells) i ot Q0 with
+        | Ok st' => (ONone, (set_streams (mix_reads O rd cells i ot Q0) st', hs))
+        | Err e => (OStop e, stt)
+        end)
+  | HSep h o =>
+      at_h h (fun i _ =>
+        match idx_of hs o with
+        | Some j =>
+            match separate_out O (map cs cells) i j with
+            | Ok st' => (ONone, (set_streams (if (i =? j)%nat then cells else read_at rd (read_at rd cells i) j) st', hs))
+            | Err e => (OStop e, stt)
+            end
+        | None => (ONone, stt)
+        end)
+  end.
+
+(* a history; it ends at the first mix / separation that raises (the objects are then in an unspecified state) *)
+Fixpoint hrun (O : oracles) (rd : reader) (stt : hstate) (ops : list hop) : list obs * hstate :=
+  match ops with
+  | [] => ([], stt)
+  | op :: t =>
+      let r := hstep O rd stt op in
+      match fst r with
+      | OStop e => ([OStop e], snd r)
+      | o => let r2 := hrun O rd (snd r) t in (o :: fst r2, snd r2)
+      end
+  end.
+
+(* the same histories WITHOUT any memo: every read evaluates the property of the current state.  This is the
+   specification machine; C02_history_memo_transparent says the real one (shared memo, handles) cannot be told apart *)
+Definition tstate := (store * list nat)%type.
+Definition tval (O : oracles) (name : nat) (flow : bool) (s : stream) : option Q :=
+  if flow then Some (prop_flow (pname O name) s) else prop_spec (pname O name) s.
+Definition tcur (O : oracles) (which : nat) (s : stream) : Q :=
+  fst (cur_value O (get_plain O) which (mkCell s None)).
+Definition tstep (O : oracles) (stt : tstate) (op : hop) : obs * tstate :=
+  let '(st, hs) := stt in
+  let at_h (h : nat) (k : nat -> stream -> obs * tstate) : obs * tstate :=
+    match idx_of hs h with
+    | Some i => match nth_error st i with Some s => k i s | None => (ONone, stt) end
+    | None => (ONone, stt)
+    end in
+  match op with
+  | HProxy h => at_h h (fun i _ => (ONone, (st, hs ++ [i])))
+  | HRead h name flow => at_h h (fun i s => (OVal (tval O name flow s), stt))
+  | HSetT h T => at_h h (fun i s => (ONone, (upd st i (set_T s T), hs)))
+  | HSetP h P => at_h h (fun i s => (ONone, (upd st i (set_P s P), hs)))
+  | HPhase h p => at_h h (fun i s => (ONone, (upd st i (set_phase1 s p), hs)))
+  | HSet h which x => at_h h (fun i s => let r := apply_set O which s x in (OErr (snd r), (upd st i (fst r), hs)))
+  | HSetCur h which => at_h h (fun i s => let r := apply_set O which s (tcur O which s) in
+                                          (OErr (snd r), (upd st i (fst r), hs)))
+  | HMix h others Q0 =>
+      at_h h (fun i _ => match mix_from O st i (tr_inlets hs others) Q0 with
+                         | Ok st' => (ONone, (st', hs))
+                         | Err e => (OStop e, stt)
+                         end)
+  | HSep h o =>
+      at_h h (fun i _ => match idx_of hs o with
+                         | Some j => match separate_out O st i j with
+                                     | Ok st' => (ONone, (st', hs))
+                                     | Err e => (OStop e, stt)
+                                     end
+                         | None => (ONone, stt)
+                         end)
+  end.
+Fixpoint trun (O : oracles) (stt : tstate) (ops : list hop) : list obs * tstate :=
+  match ops with
+  | [] => ([], stt)
+  | op :: t =>
+      let r := tstep O stt op in
+      match fst r with
+      | OStop e => ([OStop e], snd r)
+      | o => let r2 := trun O (snd r) t in (o :: fst r2, snd r2)
+      end
+  end.
+
 (* ------------------------------------------------------------------ instances used by the correspondence *)
 (* stub package: H(phase) = sum n_i (Cn_i(phase) (T - Tref) + L_i(phase)) with one heat capacity for the condensed
    phases, another for the gas, and a latent offset for the gas; the solver lands on the closed-form root, which is
    one Newton step of iter_T_at_HP from the guess *)
-Record stubp := mkP { cnl : vec; cng : vec; latg : vec }.   (* Cn of the condensed phases, Cn of the gas, latent offset of the gas *)
+Record stubp := mkP { cnl : vec; cng : vec; latg : vec; s0l : vec; s0g : vec }.
+  (* Cn of the condensed phases, Cn of the gas, latent offset of the gas, entropy offsets *)
 Definition cn_of (c : stubp) (p : phase) : vec := if (p =? 3)%nat then cng c else cnl c.
 Definition lat_of (c : stubp) (p : phase) : vec := if (p =? 3)%nat then latg c else [].
+Definition s0_of (c : stubp) (p : phase) : vec := if (p =? 3)%nat then s0g c else s0l c.
 Definition lin_Cn (c : stubp) (m : pmol) : Q := fold_right (fun pv acc => vdot (cn_of c (fst pv)) (snd pv) + acc) 0 m.
 Definition lin_L (c : stubp) (m : pmol) : Q := fold_right (fun pv acc => vdot (lat_of c (fst pv)) (snd pv) + acc) 0 m.
+Definition lin_S0 (c : stubp) (m : pmol) : Q := fold_right (fun pv acc => vdot (s0_of c (fst pv)) (snd pv) + acc) 0 m.
 Definition lin_H (c : stubp) (Tref : Q) : phase -> vec -> Q -> Q -> Q :=
   fun p v T _ => vdot (cn_of c p) v * (T - Tref) + vdot (lat_of c p) v.
+(* the stub entropy is rational as well: S(phase) = sum n_i (Cn_i(phase) (T - Tref) / 256 + s0_i(phase)) *)
+Definition lin_S (c : stubp) (Tref : Q) : phase -> vec -> Q -> Q -> Q :=
+  fun p v T _ => vdot (cn_of c p) v * (T - Tref) / 256 + vdot (s0_of c p) v.
 Definition lin_solve (c : stubp) (Tref : Q) : pmol -> Q -> Q -> Q -> res Q := fun m h Tg P =>
   do r <- iter_T_at_HP Tg h (fun T => xsum (lin_H c Tref) m T P) (fun _ => lin_Cn c m) (O, None);
   Ok (fst r).
+(* entropy: the root in closed form (division by Cn = 0 raises as in iter_T_at_SP) *)
+Definition lin_solveS (c : stubp) (Tref : Q) : pmol -> Q -> Q -> Q -> res Q := fun m x Tg P =>
+  if qzerob (lin_Cn c m) then Err EZeroDiv else Ok (Tref + 256 * (x - lin_S0 c m) / lin_Cn c m).
 Definition lin_oracles (c : stubp) (hf : vec) (Tref : Q) : oracles :=
-  mkO (lin_H c Tref) (fun _ _ _ _ => 0) (lin_solve c Tref) (fun _ _ _ _ => Err EOther) hf.
+  mkO (lin_H c Tref) (lin_S c Tref) (lin_solve c Tref) (lin_solveS c Tref) hf.
 
 (* scripted solver: keyed on the phases it is called with; None = raises RuntimeError,
    Some (a, b, c) = returns a + b * target + c * T_guess *)
@@ -391,7 +624,7 @@ Fixpoint script_solve (tbl : script) (m : pmol) (x Tg P : Q) : res Q :=
       else script_solve t m x Tg P
   end.
 Definition script_oracles (c : stubp) (hf : vec) (Tref : Q) (th ts : script) : oracles :=
-  mkO (lin_H c Tref) (fun _ _ _ _ => 0) (script_solve th) (script_solve ts) hf.
+  mkO (lin_H c Tref) (lin_S c Tref) (script_solve th) (script_solve ts) hf.
 
 (* ------------------------------------------------------------------ comparison helpers for the case files *)
 Definition pv_eqb (a b : phase * vec) : bool := (fst a =? fst b)%nat && veqb (snd a) (snd b).
@@ -408,3 +641,19 @@ Definition it_eqb (a : res (Q * cn_cache)) (b : res (Q * cn_cache)) : bool :=
 Definition Hs_ok (O : oracles) (st : store) (Hs : vec) : bool := vapproxb (map (getH O) st) Hs.
 Definition store_check (O : oracles) (got : res store) (expected : res store) (Hs : vec) : bool :=
   res_eqb store_eqb got expected && match got with Ok st' => Hs_ok O st' Hs | Err _ => true end.
+
+Definition obs_eqb (a b : obs) : bool :=
+  match a, b with
+  | ONone, ONone => true
+  | OVal x, OVal y => opt_eqb qapproxb x y
+  | OErr x, OErr y => opt_eqb err_eqb x y
+  | OStop x, OStop y => err_eqb x y
+  | _, _ => false
+  end.
+Definition hist_check (O : oracles) (init : store) (ops : list hop) (expected : list obs) (final : store) (hs : list nat)
+           (cmp_final : bool) : bool :=
+  let r := hrun O (get_prop O) (map (fun s => mkCell s None) init, seq 0 (length init)) ops in
+  list_eqb obs_eqb (fst r) expected &&
+  (negb cmp_final || (store_eqb (map cs (fst (snd r))) final && list_eqb Nat.eqb (snd (snd r)) hs)).
+Definition ws_eqb (a : res Q * workspace) (b : res Q) (n : nat) : bool :=
+  res_eqb qapproxb (fst a) b && (length (snd a) =? n)%nat.
